@@ -40,11 +40,19 @@ def batches(tier):
     k = 1 if tier == 'quick' else 40
     b.append({'name': 'random', 'n': 20000 * k, 'profile': 'random'})
     b.append({'name': 'fault-sweep', 'n': 400 * k, 'profile': 'sweep', 'chunk': 8})
+    # the timing, is_locked and re-acquirability clauses under real contention (C02's thread world, C12's oracles)
+    b.append({'name': 'contended', 'n': 16000 * k, 'profile': 'conc'})
     return b
+
+
+CONC_AS_C12 = ('filelock.left_locked', 'filelock.not_locked_inside', 'filelock.deadlock')
 
 
 def make_case(batch, seed):
     rng = random.Random(seed)
+    if batch['profile'] == 'conc':
+        from .. import sched as S
+        return {'prog': fw.gen_conc_program(rng, 'conc'), 'sched': {'seed': seed, 'strategy': list(S.pick_strategy(rng))}}
     if batch['profile'] == 'sweep':
         prog = fw.gen_seq_program(rng, 'random-short')
         return {'prog': prog, 'sweep': True, 'pair_seed': seed, 'sched': {}}
@@ -55,6 +63,13 @@ ERRNOS = {'open': ['EMFILE', 'EINTR'], 'flock': ['EINTR', 'ENOLCK'], 'unlock': [
 
 
 def run_case(case):
+    if case['prog'].get('world') == 'fl-conc':
+        r = fw.execute_conc(case['prog'], case.get('sched') or {})
+        for v in r['violations']:
+            if v['property'] == 'C02' and v['oracle'] in CONC_AS_C12:
+                v['property'] = 'C12'
+                v['oracle'] = v['oracle'].replace('filelock.', 'filelock.conc_')
+        return r
     if not case.get('sweep'):
         return fw.execute_seq(case['prog'])
     # fault-free run to learn the call counts, then every single fault, then sampled pairs
@@ -99,6 +114,10 @@ def run_case(case):
 
 def shrink(case):
     prog = case['prog']
+    if prog.get('world') == 'fl-conc':
+        from . import c02
+        yield from c02.shrink(case)
+        return
     if case.get('sweep'):
         # reduce a sweep to the single failing fault set
         r = run_case(case)
